@@ -31,9 +31,10 @@ struct Value {
         T_INT,
         T_DATA,
         T_OPCODE,
-    } type;
-    int64_t int64;
-    opcodetype opcode;
+    } type = T_STRING;
+    // (the members the value's type does not use were left uninitialised and then read whenever a value was copied)
+    int64_t int64 = 0;
+    opcodetype opcode = OP_INVALIDOPCODE;
     std::vector<uint8_t> data;
     std::string str;
     // net number of '[' minus ']' in a text; the text of a comment ('#' to the end of the line) does not count
